@@ -26,6 +26,9 @@ def main():
     os.environ[common.GUARD] = "1"
     os.environ.setdefault("PYTHONHASHSEED", "0")
     sys.path.insert(0, os.path.join(common.REPO, "src"))
+    # helper processes started by the code under test (constexpr evaluation) must import the same tree
+    os.environ["PYTHONPATH"] = os.path.join(common.REPO, "src") + (os.pathsep + os.environ["PYTHONPATH"] if os.environ.get("PYTHONPATH") else "")
+    os.environ.pop("PYTHONDONTWRITEBYTECODE", None)
     import checks_lang
     import checks_proc
     import checks_text
